@@ -91,6 +91,8 @@ SPEC = {
     'level': 'proof',
     'timeout': {'quick': 900, 'thorough': 1800},
     'case_timeout': 240,
+    'driver_timeout': {'quick': 1800, 'thorough': 5400},   # trace validation of ~5000 snapshots in exact rationals
+
     'classify_crash': classify_crash,
     'rule': 'one case = one (POMDP, solver) pair; 12 fixed POMDPs (Tiger, 1-state clamp witnesses, corner/face initial beliefs, all-negative rewards, two S=5 GapMin regression instances) then '
             '38 (quick) / 298 (thorough) seeded dyadic POMDPs S<=4(5) A<=3 O<=3, discounts 1/2..15/16 (and 0.9/0.95/0.3), initial belief corner/face/interior; '
